@@ -45,6 +45,8 @@ def check(ctx):
     check_invariant(ctx, P)
     check_iter(ctx, P)
     check_tables(ctx, P)
+    check_no_truncation(ctx, P)
+    check_fill(ctx, P)
     check_siblings(ctx, P)
 
 
@@ -366,6 +368,54 @@ def header_signature(ctx, P, f):
         gs.append((what, ok))
     sig["guards"] = gs
     return sig, None
+
+
+def check_fill(ctx, P):
+    """a.totality/b (stored diagnostics are those of the last reply): ExtendedDiagnostics::fill either records the new block data
+    (length == len(buf)) or returns because there is no buffer / the buffer is too small; an empty block list is recorded like any other
+    (otherwise the blocks of an earlier reply would still be reported)."""
+    f = None
+    for g_ in P.crate_fns(CR):
+        if g_.module == "dp::diagnostics" and g_.name.endswith("ExtendedDiagnostics::<'a>::fill"):
+            f = g_
+    if f is None:
+        ctx.notes.append("fill: ExtendedDiagnostics::fill not found - not decided")
+        return
+    na = NumAnalysis(f, P)
+    LEN = ("v", 1, (("deref",), ("f", "length")))
+    BUF = ("len", 2, ())
+    CAP = ("mlen", 1, (("deref",), ("f", "buffer")))
+    bad = []
+    n = 0
+    for rb in f.return_blocks:
+        for st in na.states_at_term(rb):
+            n += 1
+            stored = st.z.get(LEN, BUF) <= 0 and st.z.get(BUF, LEN) <= 0
+            no_buffer = st.z.hi(CAP) <= 0
+            too_small = st.z.get(CAP, BUF) <= -1
+            if not (stored or no_buffer or too_small):
+                bad.append("len(buf) in [%s,%s], capacity in [%s,%s]" % (st.z.lo(BUF), st.z.hi(BUF), st.z.lo(CAP), st.z.hi(CAP)))
+    ctx.ob("a.totality", "fill-records-or-rejects", n >= 3 and not bad,
+           "ExtendedDiagnostics::fill can return without recording the reply's block data although a large enough buffer exists (%s): the "
+           "blocks of an earlier reply stay visible" % "; ".join(sorted(set(bad))[:2]), f.loc(0))
+
+
+def check_no_truncation(ctx, P):
+    """d.header: the reported flags are every bit of the reply: besides from_bits_retain, no operation of the decode path may truncate to
+    the named flags (`!flags`, `complement()`, `from_bits_truncate`, `&` with `all()`)."""
+    n = 0
+    for f in P.crate_fns(CR):
+        if not (f.name.endswith("::handle_diagnostics_response") or f.name.endswith("::parse_diag_response")):
+            continue
+        n += 1
+        bad = []
+        for b, c in call_sites(f):
+            cal = c.get("callee") or ""
+            if "DiagnosticFlags" in cal and (("ops::Not" in cal) or cal.endswith(("::complement", "::from_bits_truncate", "::all"))):
+                bad.append("%s %s" % (f.loc(b), cal.split("::")[-1]))
+        ctx.ob("d.header", "no-truncation|%s" % f.name.split("::")[-1], not bad,
+               "the decoded diagnostic flags pass through an operation that drops the bits without a named constant (%s)" % bad, f.loc(0))
+    ctx.anchor("diagnostics header decoders", n, 2)
 
 
 def check_siblings(ctx, P):
